@@ -136,7 +136,8 @@ def run(F, R, tier):
                     fo |= B.origins(B.blocks[x[2]]["term"]["args"][0])
                 else:
                     fo.add(x)
-            okb = bo and bo == fo and all(x[0] == "call" and q.ends(x[1], "to_bytes") for x in bo)
+            from rules.c15 import is_whole_body
+            okb = bo and bo == fo and is_whole_body(B, F, bo)
             R.check(okb, "C04.R1", "C04.R1:%s:same-body" % HRS, q.where(B, fp[0][0]),
                     "the body signed and the body forwarded are the same collected Bytes",
                     "signed body origins %s vs forwarded %s" % (sorted(map(str, bo)), sorted(map(str, fo))))
